@@ -295,6 +295,12 @@ def fft_read_bound(m):
                     return ib["i"]["hi"]
                 if ib.get("k") == "index" and ib["i"].get("k") == "range" and ib["i"].get("lo") is None and any(is_path(x, m["wave_in"]) for x in walk(ib)):
                     return ib["i"]["hi"]
+        for c_ in l["copies"]:
+            s_ = c_["src"]
+            while s_.get("k") == "ref":
+                s_ = s_["e"]
+            if s_.get("k") == "index" and s_["i"].get("k") == "range" and s_["i"].get("lo") is None and s_["i"].get("hi") is not None and any(is_path(x, m["wave_in"]) for x in walk(s_)):
+                return s_["i"]["hi"]
         for ec in l["elemcopies"]:
             # wave_in[chan].as_ref().iter().zip(dst.iter_mut().skip(a).take(b)) : reads min(len, b) = b frames (len >= b validated)
             if any(is_path(x, m["wave_in"]) for x in walk(ec["src_base"])):
